@@ -40,7 +40,7 @@ Proof.
   - cbn [with_int Writer.wstate Writer.wstack].
     destruct (Writer.st_start W trap _ (Writer.wstate w) (Writer.wstack w)) as [r st]. apply commit_with_int.
   - cbn [with_int Writer.wstate Writer.wstack].
-    destruct (Writer.st_finish_object W trap (Writer.wstate w) (Writer.wstack w)) as [r st]. apply commit_with_int.
+    destruct (Writer.st_finish_object (Writer.wstate w) (Writer.wstack w)) as [r st]. apply commit_with_int.
   - cbn [with_int Writer.wstate Writer.wstack].
     destruct (Writer.st_start W trap _ (Writer.wstate w) (Writer.wstack w)) as [r st]. apply commit_with_int.
   - cbn [with_int Writer.wstate Writer.wstack].
@@ -55,7 +55,7 @@ Proof.
   destruct op; cbn [Writer.step]; unfold Writer.write_str; try apply commit_interned.
   - destruct (nthN (Writer.interned w) id); [apply commit_interned|reflexivity].
   - destruct (Writer.st_start W trap _ _ _) as [r st]. apply commit_interned.
-  - destruct (Writer.st_finish_object W trap _ _) as [r st]. apply commit_interned.
+  - destruct (Writer.st_finish_object _ _) as [r st]. apply commit_interned.
   - destruct (Writer.st_start W trap _ _ _) as [r st]. apply commit_interned.
   - destruct (Writer.st_finish_array _ _) as [r st]. apply commit_interned.
 Qed.
